@@ -199,6 +199,9 @@ func execSig(p *Program, cfg ExecCfg, ex *execState) uint64 {
 	if cfg.ListGenerated {
 		h = (h ^ 0x11d6) * 1099511628211
 	}
+	if cfg.OutHandling != 0 {
+		h = (h ^ cfg.OutHandling) * 1099511628211
+	}
 	return (h ^ ex.sig) * 1099511628211
 }
 
@@ -420,7 +423,7 @@ func runWorker(master uint64, worker, workers, execs, maxProgs int, budget float
 					if okAll {
 						seenKeys["order_dependent_error/reference"] = true
 						res.Violations = append(res.Violations, &Replay{Property: "C14", MasterSeed: master, ProgIndex: idx, ExecIndex: e, Program: p.ToJSON(), Exec: cfg,
-							Violation: &Violation{Class: "order_dependent_error", Form: "reference", OpIndex: -1, Detail: "the canonical execution (sorted listings, identity orders) fails with: " + truncate(err.Error(), 400) + "\nbut the same program compiles under the permuted orders of this execution"},
+							Violation:  &Violation{Class: "order_dependent_error", Form: "reference", OpIndex: -1, Detail: "the canonical execution (sorted listings, identity orders) fails with: " + truncate(err.Error(), 400) + "\nbut the same program compiles under the permuted orders of this execution"},
 							FindingKey: "order_dependent_error/reference", Minimised: false})
 						break
 					}
@@ -480,8 +483,8 @@ func runWorker(master uint64, worker, workers, execs, maxProgs int, budget float
 					seenKeys["process_history_dependence"] = true
 					res.Violations = append(res.Violations, &Replay{Property: "C14", MasterSeed: master, ProgIndex: idx, ExecIndex: -1, Minimised: true,
 						FindingKey: "process_history_dependence",
-						Violation: &Violation{Class: "process_history_dependence", OpIndex: -1, Detail: fmt.Sprintf("edited bundle (%s): digest %s in a fresh process, %s in the process that compiled the original first", edit, fresh, here)},
-						History:   &HistoryCase{Index: idx, GenCfg: cfgName, Fresh: fresh, History: here, Before: p.ToJSON(), Target: vp.ToJSON(), Edit: edit}})
+						Violation:  &Violation{Class: "process_history_dependence", OpIndex: -1, Detail: fmt.Sprintf("edited bundle (%s): digest %s in a fresh process, %s in the process that compiled the original first", edit, fresh, here)},
+						History:    &HistoryCase{Index: idx, GenCfg: cfgName, Fresh: fresh, History: here, Before: p.ToJSON(), Target: vp.ToJSON(), Edit: edit}})
 				}
 			}
 		}
